@@ -685,3 +685,13 @@ class BindedField(CntField):
             return res[0]
         return res
 
+    def pack(self, value, psize=0):
+        # the counter is packed by the field it is bound to
+        if not value:
+            return b""
+        if not hasattr(self, "fcount"):
+            self.fcount = self.count
+        self.count = len(value)
+        if isinstance(value, (list, tuple)):
+            return struct.pack(self.order + self.format(psize), *value)
+        return struct.pack(self.order + self.format(psize), value)
